@@ -405,7 +405,9 @@ func (t *Tr) callInner(instr ssa.Instruction, cc *ssa.CallCommon, pos token.Pos,
 	t.sentinelFacts(cc, rtypes, res)
 	// errors from well-known constructors are non-nil
 	if callee != nil && rtypes.Len() == 1 && isErrorCtor(callee.String()) {
-		if strings.HasPrefix(callee.String(), "google.golang.org/grpc/status.Error") && len(cc.Args) > 0 {
+		if strings.HasPrefix(callee.String(), "google.golang.org/grpc/status.New") {
+			t.c.fact(lt(tInt(0), res.T)) // status.New always returns a status object
+		} else if strings.HasPrefix(callee.String(), "google.golang.org/grpc/status.Error") && len(cc.Args) > 0 {
 			// status.Error(codes.OK, ..) is nil
 			t.c.assert(implies(not(eq(t.term(cc.Args[0]), tInt(0))), lt(tInt(0), res.T)))
 		} else {
@@ -426,7 +428,8 @@ func shortCallee(name string) string {
 func isErrorCtor(name string) bool {
 	switch name {
 	case "errors.New", "fmt.Errorf", "github.com/pkg/errors.New", "github.com/pkg/errors.Errorf", "github.com/pkg/errors.Wrap", "github.com/pkg/errors.Wrapf",
-		"google.golang.org/grpc/status.Error", "google.golang.org/grpc/status.Errorf":
+		"google.golang.org/grpc/status.Error", "google.golang.org/grpc/status.Errorf",
+		"google.golang.org/grpc/status.New", "google.golang.org/grpc/status.Newf":
 		return true
 	}
 	return false
@@ -954,6 +957,41 @@ func (t *Tr) lockOp(li *LockInv, op string, cc *ssa.CallCommon, pos token.Pos) {
 // ---------------------------------------------------------------------------
 // call-site clauses:  call <callee>[#k] requires <expr>
 
+// pseudoCall: channel sends are treated like calls of "send.<channel variable>"(chan, value) so that
+// call-site clauses and ghost statements can be attached to them.
+func (t *Tr) pseudoCall(ch ssa.Value, val ssa.Value, pos token.Pos) {
+	name := "send." + chanName(ch)
+	t.callOrd[name]++
+	t.pseudoArgs = []ssa.Value{ch, val}
+	t.callSiteClauses(name, t.callOrd[name], nil, pos)
+	for _, gs := range t.ghostAt["after"] {
+		if calleeMatches(gs.callee, name) && (gs.ord == 0 || gs.ord == t.callOrd[name]) {
+			t.applyGhost(gs, t.pointEnv(nil, nil), t.curSt)
+		}
+	}
+	t.pseudoArgs = nil
+}
+
+func chanName(ch ssa.Value) string {
+	switch x := ch.(type) {
+	case *ssa.FreeVar:
+		return x.Name()
+	case *ssa.Parameter:
+		return x.Name()
+	case *ssa.UnOp:
+		if fv, ok := x.X.(*ssa.FreeVar); ok {
+			return fv.Name()
+		}
+		if a, ok := x.X.(*ssa.Alloc); ok && a.Comment != "" {
+			return a.Comment
+		}
+		if fa, ok := x.X.(*ssa.FieldAddr); ok {
+			return deref(fa.X.Type()).Underlying().(*types.Struct).Field(fa.Field).Name()
+		}
+	}
+	return "chan"
+}
+
 func (t *Tr) callSiteClauses(name string, ord int, cc *ssa.CallCommon, pos token.Pos) {
 	if t.ct == nil || !t.verify {
 		return
@@ -1029,6 +1067,11 @@ func (t *Tr) pointEnv(instr ssa.Instruction, cc *ssa.CallCommon) *Env {
 					}
 				}
 			}
+		}
+	}
+	if cc == nil && t.pseudoArgs != nil {
+		for i, a := range t.pseudoArgs {
+			e.vars[fmt.Sprintf("arg%d", i)] = &SVal{t.term(a), goT(a.Type())}
 		}
 	}
 	if cc != nil {
